@@ -1,7 +1,7 @@
 (* Property C16 -- size-class and address arithmetic is sound for every size and address.
    This file contains only statements, each closed by `exact <lemma>`, and Print Assumptions. *)
 From Coq Require Import NArith List.
-From MiV Require Import Gen.Consts Gen.Bins Model.Arith Proofs.Base Proofs.ArithSweeps Proofs.ArithProofs.
+From MiV Require Import Gen.Consts Gen.Bins Model.Arith Proofs.Base Proofs.ArithSweeps Proofs.ArithProofs Proofs.BitsProofs.
 Local Open Scope N_scope.
 
 (* the chosen block size is at least the request; small/medium requests get a proper bin *)
@@ -64,6 +64,66 @@ Theorem C16_fast_divide : forall d n, 0 < d -> d < 2^32 -> n < 2^32 ->
   fast_divide n (fst (fast_divisor d)) (snd (fast_divisor d)) = n / d.
 Proof. exact fast_divide_correct. Qed.
 Print Assumptions C16_fast_divide.
+
+(* ---- address arithmetic, for every 64-bit address ---- *)
+
+(* interior pointer -> block start, for EVERY block size (shift path or modulo path), every block
+   index and every interior offset *)
+Theorem C16_unalign_correct : forall page_start bs i off,
+  0 < bs -> bs < W64 -> off < bs -> page_start + i * bs + off < W64 ->
+  ptr_unalign page_start bs (page_start + i * bs + off) = page_start + i * bs.
+Proof. exact unalign_correct. Qed.
+Print Assumptions C16_unalign_correct.
+
+Theorem C16_block_size_shift : forall bs, 0 < bs -> bs < W64 ->
+  block_size_shift bs <> 0 -> bs = 2 ^ block_size_shift bs.
+Proof. exact block_size_shift_spec. Qed.
+Print Assumptions C16_block_size_shift.
+
+(* pointer -> segment: every p with seg < p <= seg + MI_SEGMENT_SIZE maps to seg *)
+Theorem C16_ptr_segment : forall seg p,
+  seg mod MI_SEGMENT_SIZE = 0 -> 0 < seg -> seg + MI_SEGMENT_SIZE < 2^63 ->
+  seg < p -> p <= seg + MI_SEGMENT_SIZE -> ptr_segment p = seg.
+Proof. exact ptr_segment_spec. Qed.
+Print Assumptions C16_ptr_segment.
+
+(* pointer -> slice index (the page is then found through the slice's back-offset, Model/Span.v) *)
+Theorem C16_slice_index_of : forall seg idx off,
+  seg + idx * MI_SEGMENT_SLICE_SIZE + off < W64 -> off < MI_SEGMENT_SLICE_SIZE ->
+  slice_index_of seg (seg + idx * MI_SEGMENT_SLICE_SIZE + off) = idx.
+Proof. exact slice_index_of_spec. Qed.
+Print Assumptions C16_slice_index_of.
+
+Theorem C16_align_up : forall sz a, 0 < a -> sz + a - 1 < W64 -> a < W64 ->
+  sz <= align_up sz a /\ align_up sz a < sz + a /\ align_up sz a mod a = 0.
+Proof. exact align_up_props. Qed.
+Print Assumptions C16_align_up.
+
+Theorem C16_align_down : forall sz a, 0 < a -> sz < W64 -> a < W64 ->
+  align_down sz a <= sz /\ sz < align_down sz a + a /\ align_down sz a mod a = 0.
+Proof. exact align_down_props. Qed.
+Print Assumptions C16_align_down.
+
+Theorem C16_divide_up : forall s d, 0 < d -> s + d - 1 < W64 ->
+  s <= divide_up s d * d /\ divide_up s d * d < s + d.
+Proof. exact divide_up_spec. Qed.
+Print Assumptions C16_divide_up.
+
+(* the page area lies inside its span: start >= span start, start + page_size = span end *)
+Theorem C16_page_start_span : forall seg idx cnt bs,
+  seg mod MI_SEGMENT_SIZE = 0 -> seg + MI_SEGMENT_SIZE < W64 -> 0 < cnt ->
+  idx + cnt <= MI_SLICES_PER_SEGMENT ->
+  fst (page_start_from_slice seg idx cnt bs) + snd (page_start_from_slice seg idx cnt bs)
+    = seg + (idx + cnt) * MI_SEGMENT_SLICE_SIZE /\
+  fst (page_start_from_slice seg idx cnt bs) <= seg + idx * MI_SEGMENT_SLICE_SIZE + MI_SEGMENT_SLICE_SIZE.
+Proof. exact page_start_span_end. Qed.
+Print Assumptions C16_page_start_span.
+
+Example C16_ex_unalign : ptr_unalign 4096 48 (4096 + 7 * 48 + 47) = 4096 + 7 * 48
+  /\ ptr_unalign 4096 64 (4096 + 7 * 64 + 63) = 4096 + 7 * 64
+  /\ ptr_segment (5 * MI_SEGMENT_SIZE + 1) = 5 * MI_SEGMENT_SIZE
+  /\ ptr_segment (6 * MI_SEGMENT_SIZE) = 5 * MI_SEGMENT_SIZE.
+Proof. vm_compute. repeat split. Qed.
 
 (* non-vacuity: concrete instances *)
 Example C16_ex_bin : mi_bin 1000 = 24 /\ mi_bin 17 = 4 /\ bin_size 24 = 1024 /\ good_size 1000 = 1024 /\ slice_bin8 9 = 8.
